@@ -96,6 +96,9 @@ func Universe(r *rand.Rand, c Cfg, n int) []uint64 {
 	bf := uint64(c.BF)
 	// unsigned kinds: in one universe out of three, half of the keys lie at or above 2^63
 	wide := (c.KK == "u64" || c.KK == "uint") && r.Intn(3) == 0
+	// vk: one universe in five has layers 0 and 3..5 only: between the leaves and the high keys lie
+	// chains of entry-less pass-through nodes, which deletes of the high keys have to merge
+	gappy := c.KK == "vk" && r.Intn(5) == 0
 	for len(out) < n {
 		switch c.KK {
 		case "vk":
@@ -108,6 +111,9 @@ func Universe(r *rand.Rand, c Cfg, n int) []uint64 {
 			}
 			for l < 6 && r.Intn(p) == 0 {
 				l++
+			}
+			if gappy {
+				l = pick(r, []int{0, 0, 0, 0, 3, 3, 4, 5})
 			}
 			dup := false
 			for _, k := range out {
